@@ -114,7 +114,20 @@ func init() {
 				}
 			}
 			c.Check(nSet == 1, "bit-set-sites", "", "exactly one bit-setting store", fmt.Sprintf("%d bit-setting stores", nSet))
-			c.RegionCallers("record", push, "Association.pushPayloadDataToStream")
+			// push is reached on the delivery path, or to record a refused (duplicate) TSN
+			canPush := c.Fn("receivePayloadQueue.canPush")
+			gates := fnSet(c.fns("Association.pushPayloadDataToStream"))
+			reach := c.P.ReachableAvoiding(c.P.Roots(), gates)
+			for _, cs := range c.P.CallSitesOf(push) {
+				if cs.Instr.Common().StaticCallee() != push {
+					continue
+				}
+				ok, why := c.inRegion(cs.Fn, gates, reach)
+				if !ok && DominatedByExt(cs.Instr, CallCond(canPush, false, nil, SameExpr(callArg(cs.Instr, 1)))) {
+					ok, why = true, "records a TSN that canPush() refused (push cannot set a bit for it)"
+				}
+				c.Check(ok, ks.key("record:call(push)@"+c.P.FuncName(cs.Fn)), c.Pos(cs.Instr), "receivePayloadQueue.push "+why, "receivePayloadQueue.push called outside the delivery path for a TSN that was not refused: "+why)
+			}
 			// duplicates are recorded on the refusing edge
 			dup := c.field("receivePayloadQueue", "dupTSN")
 			nd := 0
